@@ -1088,6 +1088,8 @@ impl<E: Effect> Executor<E> {
     /// Execute up to max_units instruction units for a single process.
     /// Returns (did_work, optional_action) where did_work indicates if any instructions were executed.
     pub fn step(&mut self, max_units: usize, current_time_ms: u64) -> (bool, Option<Action<E>>) {
+        #[cfg(feature = "verif")]
+        let max_units = crate::verif::quantum().unwrap_or(max_units);
         // Reclaim slots that settled at count 0 since the last step. Doing it here (a quiescent
         // point — any Action returned by the previous step has been handled by the Environment,
         // and no Rust-local Value handles are live) is what makes deferred reclamation safe.
@@ -2892,6 +2894,44 @@ impl<E: Effect> Executor<E> {
 
         // Remap value indices
         remap_heap_indices(&value, &index_map)
+    }
+}
+
+#[cfg(feature = "verif")]
+impl<E: Effect> Executor<E> {
+    /// Verification hook: a copy of the heap accounting state.
+    pub fn verif_heap_view(&self) -> crate::verif::HeapView {
+        crate::verif::HeapView {
+            slots: (0..self.heap.len())
+                .map(|i| crate::verif::SlotView {
+                    refcount: self.refcounts[i],
+                    freed: self.freed[i],
+                    bytes: self.heap[i].to_vec(),
+                })
+                .collect(),
+            free: self.free.clone(),
+            pending_free: self.pending_free.clone(),
+            constant_cache: self
+                .constant_binaries
+                .iter()
+                .flatten()
+                .filter_map(|b| match b {
+                    Binary::Heap(i) => Some(*i),
+                    _ => None,
+                })
+                .collect(),
+        }
+    }
+
+    /// Verification hook: a copy of the scheduler sets.
+    pub fn verif_sched_view(&self) -> crate::verif::SchedView {
+        crate::verif::SchedView {
+            queue: self.queue.iter().copied().collect(),
+            spawning: self.spawning.iter().copied().collect(),
+            selecting: self.selecting.iter().copied().collect(),
+            effecting: self.effecting.iter().copied().collect(),
+            processes: self.processes.keys().copied().collect(),
+        }
     }
 }
 
